@@ -2,6 +2,7 @@ import Driver.Proto
 import TonicModel.Basic.RichErrorTypes
 import TonicModel.Basic.PbWire
 import TonicModel.Model.RichError
+import TonicModel.Model.RichErrorTrip
 import TonicModel.Spec.RichError
 /-
 C20 driver.  Case and observation formats are documented at the top of harness/src/c20.rs.
@@ -14,6 +15,13 @@ C20 driver.  Case and observation formats are documented at the top of harness/s
   vec-roundtrip / set-roundtrip   what check_error_details[_vec] returned equals what was attached
   getters-first      each get_details_* returned the first detail of its kind
   no-panic, err-implies-empty     decode side: an error or an empty result, never a panic
+`x <trip> <pre> <obs> <hist> <inner>` cases (harness/src/c20_x.rs): the model takes the inner case's
+status through `RichError.trip` (the header model of `Model/Status`, composed) and predicts the
+same sections plus `GV` / `GS`; `pre`, `obs`, `hist` are invisible to the model.  Verdict: the inner
+case's clauses, and
+  get-roundtrip      get_error_details_vec (list form) / get_error_details (set form) return in full
+                     what was attached
+  get-is-check       decode side: get_* is the check_* result, or empty when that is an error
 -/
 namespace DriverC20
 open Proto RichError
@@ -172,7 +180,8 @@ def setOfSlots (l : List (Option ErrorDetail)) : ErrorDetails :=
 
 /-- everything the harness prints after the header trip, from the model (the header encoding
 itself is C04's subject: here code, message, details bytes and metadata come back unchanged) -/
-def observe (code : Nat) (msg : Bytes) (md : List (Bytes × Bytes)) (details : Bytes) : List String :=
+def observe (code : Nat) (msg : Bytes) (md : List (Bytes × Bytes)) (details : Bytes) (full : Bool := false) :
+    List String :=
   let e : List String := match prost.decStatus details with
     | some st => ["E", "ok", toString st.code, hex st.message, toString st.details.length]
     | none => ["E", "err"]
@@ -184,8 +193,18 @@ def observe (code : Nat) (msg : Bytes) (md : List (Bytes × Bytes)) (details : B
     | none => ["S", "err"]
   let g : List String := ["G"] ++ allKinds.flatMap fun k => renderSlot (getFirst prost k details)
   let d : List String := ["D", toString (getVec prost details).length, toString (countSet (getSet prost details))]
+  let gv : List String := ["GV", toString (getVec prost details).length] ++ (getVec prost details).flatMap renderDetail
+  let gs : List String := ["GS"] ++ renderSet (getSet prost details)
   ["T", toString code, hex msg, hex details, "M", toString md.length] ++
-    (sortByKey md).flatMap (fun e => [hex e.1, hex e.2]) ++ e ++ v ++ s ++ g ++ d
+    (sortByKey md).flatMap (fun e => [hex e.1, hex e.2]) ++ e ++ v ++ s ++ g ++ d ++
+    (if full then gv ++ gs else [])
+
+/-- the model's observation of an `x` case: the status is taken through the header model -/
+def observeVia (t : Trip) (code : Nat) (msg : Bytes) (md : List (Bytes × Bytes)) (details : Bytes) :
+    List String :=
+  match trip t (toSt ⟨code, msg, details, md⟩) with
+  | some st => observe st.code.num st.message st.metadata st.details true
+  | none => ["trip-fails"]
 
 /-! ### HashMap order
 
@@ -223,12 +242,14 @@ def obsBytes (obs : List String) : Option Bytes :=
   | _ => none
 
 def handleBuilt (code : Nat) (msg : Bytes) (md : List (Bytes × Bytes)) (ds : List ErrorDetail)
-    (isSet : Bool) (obs : List String) : String × String :=
+    (isSet : Bool) (obs : List String) (x : Option Trip := none) : String × String :=
   let ob := (obsBytes obs).getD []
   let ds' := reorder ds (observedOrders ob)
   let st : Status Unit :=
     if isSet then withSet prost code msg (setOfSlots (ds'.map some)) () else withVec prost code msg ds' ()
-  let model := observe code msg md st.details
+  let model := match x with
+    | none => observe code msg md st.details
+    | some t => observeVia t code msg md st.details
   let expectVec := ["ok", toString ds.length] ++ ds.flatMap renderDetail
   let expectSet := ["ok"] ++ renderSet (setOfSlots (ds.map some))
   let expectFirst := allKinds.flatMap fun k => renderSlot (Spec.RichError.firstOfKind k ds)
@@ -245,19 +266,35 @@ def handleBuilt (code : Nat) (msg : Bytes) (md : List (Bytes × Bytes)) (ds : Li
           if isSet then Spec.RichError.carriesSet code msg ds ob else Spec.RichError.carries code msg ds ob),
        ("getters-first", sect "G" "D" obs == expectFirst)] ++
       (if isSet then [("set-roundtrip", sect "S" "G" obs == expectSet)]
-       else [("vec-roundtrip", sect "V" "S" obs == expectVec)])
+       else [("vec-roundtrip", sect "V" "S" obs == expectVec)]) ++
+      (if x.isSome then
+        [("get-roundtrip",
+            if isSet then sect "GS" "" obs == expectSet.drop 1 else sect "GV" "GS" obs == expectVec.drop 1)]
+       else [])
      else [])
   (String.intercalate " " model, verdict clauses)
 
-def handleRaw (code : Nat) (msg : Bytes) (details : Bytes) (obs : List String) : String × String :=
-  let model := observe code msg [] details
-  let d := sect "D" "" obs
+def handleRaw (code : Nat) (msg : Bytes) (details : Bytes) (obs : List String) (x : Option Trip := none) :
+    String × String :=
+  let model := match x with
+    | none => observe code msg [] details
+    | some t => observeVia t code msg [] details
+  let d := sect "D" "GV" obs
+  let v := sect "V" "S" obs
+  let s := sect "S" "G" obs
+  let gv := sect "GV" "GS" obs
+  let gs := sect "GS" "" obs
   let clauses : List (String × Bool) :=
     [("no-panic", obs != ["panic"]),
      ("header-trip", obs.take 4 == ["T", toString code, hex msg, hex details]),
      ("err-implies-empty",
         (sect "V" "S" obs != ["err"] || d.head? == some "0") &&
-        (sect "S" "G" obs != ["err"] || d.drop 1 == ["0"]))]
+        (sect "S" "G" obs != ["err"] || d.drop 1 == ["0"]))] ++
+    (if x.isSome then
+      [("get-is-check",
+          (if v == ["err"] then gv == ["0"] else gv == v.drop 1) &&
+          (if s == ["err"] then gs == List.replicate 10 "-" else gs == s.drop 1))]
+     else [])
   (String.intercalate " " model, verdict clauses)
 
 def parseCase : P (String × Nat × Bytes × List (Bytes × Bytes) × List ErrorDetail × Bytes) := do
@@ -285,7 +322,32 @@ def parseCase : P (String × Nat × Bytes × List (Bytes × Bytes) × List Error
     pure (kind, code, msg, [], [], b)
   | _ => failure
 
+/-- the block an `ahp` case writes into -/
+def preBlock : HMap := [(HMap.name "a", Ascii.ofString "pre"), (HMap.name "x-pre", Ascii.ofString "1")]
+
+def tripOfTok : String → Option Trip
+  | "ah" | "reuse" => some (.add [])
+  | "ahp" => some (.add preBlock)
+  | "http" => some (.add contentTypeGrpc)
+  | "pad" => some .padded
+  | "twice" => some .twice
+  | _ => none
+
+/-- metadata an `x` case may carry: ASCII keys, and the one binary key that is dropped on the way -/
+def metaOk (md : List (Bytes × Bytes)) : Bool :=
+  md.all fun e => !(Ascii.ofString "-bin").isSuffixOf e.1 || e.1 == _root_.Status.GRPC_STATUS_DETAILS
+
 def handle (case obs : List String) : String × String :=
+  match case with
+  | "x" :: t :: pre :: o :: hist :: inner =>
+    match tripOfTok t, parseCase.run inner with
+    | some tr, some ((kind, code, msg, md, ds, raw), _) =>
+      if !(["id", "clone", "box", "try", "chain", "src"].contains pre && ["st", "rpc"].contains o &&
+           ["h0", "h1", "h2"].contains hist && metaOk md) then bad
+      else if kind == "raw" then handleRaw code msg raw obs (some tr)
+      else handleBuilt code msg md ds (kind == "set") obs (some tr)
+    | _, _ => bad
+  | _ =>
   match (parseCase.run case) with
   | none => bad
   | some ((kind, code, msg, md, ds, raw), _) =>
